@@ -71,7 +71,7 @@ def next_fast_len(N):
     if N <= 10:
         return N
 
-    f7, guess = 1, 2 * N
+    f7, guess = 1, 2 * int(N)
     while f7 < guess:
         f75 = f7
         while f75 < guess:
